@@ -418,6 +418,9 @@ func removeFromCollection(col ItemCollection, items ...Item) ItemCollection {
 	for _, ob := range col {
 		found := false
 		for _, it := range items {
+			if IsNil(ob) || IsNil(it) {
+				continue
+			}
 			if ob.GetID().Equals(it.GetID(), false) {
 				found = true
 				break
